@@ -22,7 +22,7 @@ var c29Assumptions = []string{
 	"count_values renders the alphabet values as 0, 1, 2, NaN, +Inf, -Inf",
 	"quantile(phi, v) for 0<=phi<=1 is the documented rank phi*(N-1) over the ascending values (NaN smallest) with linear interpolation lower*(1-w)+upper*w between neighbouring ranks and the sample itself when the rank is integral",
 	"group_left/group_right results carry all labels of the many side; a label listed in the group modifier is copied from the one side (removed when the one side lacks it); a filled-in sample carries exactly the matching labels",
-	"a comparison without bool keeps the metric name of the side whose labels form the result unless on() is used without listing __name__ (one-to-one); with on() and group_left/group_right the reference follows the documented exception literally only if the engine does too (see c29NameRule)",
+	"a comparison without bool keeps the metric name of the operand whose labels form the result (left; right for group_right); the documented exception 'if on is used the metric name is dropped' is read as a consequence of on() restricting the result labels of a one-to-one match to the listed labels (so on(__name__) keeps it), and is not applied to group_left/group_right results, which carry all labels of the many side",
 	"duplicate series inside a match group on the one side with no partner on the other side may or may not be reported as a matching error (both accepted)",
 	"float64 arithmetic of the Go math package (Mod, Pow, Atan2, Sqrt) is trusted",
 }
@@ -510,11 +510,9 @@ func c29RefSet(e *c29Expr, lhs, rhs []ag_Sample) *c29Expect {
 	return exp
 }
 
-// c29NameRule selects how the reference reads "If on is used, then the metric name is dropped"
-// for comparisons without bool combined with group_left/group_right:
-// false = the many side keeps its name like every other label of the many side (the on list only
-// restricts the result labels of one-to-one matches); true = literal reading, the name is dropped.
-var c29NameRuleLiteral = false
+// c29NameRuleLiteral = true would apply "If on is used, then the metric name is dropped" also to
+// group_left/group_right comparisons (the engine keeps the name there); see c29Assumptions.
+const c29NameRuleLiteral = false
 
 func c29RefVV(e *c29Expr, lhs, rhs []ag_Sample) *c29Expect {
 	if c29IsSet(e.Op) {
